@@ -83,8 +83,11 @@ func build(c *ecase, text string) *profile.Profile {
 		p.Comments = []string{text, "second"}
 	case "labelkey":
 		p.Sample[0].Label = map[string][]string{text: {"val"}}
+		// and as the LAST of several labels of another sample (labels are joined in key:value order)
+		p.Sample[1].Label = map[string][]string{"a": {"plain"}, "zz" + text: {"val"}}
 	case "labelvalue":
 		p.Sample[0].Label = map[string][]string{"key": {text}}
+		p.Sample[1].Label = map[string][]string{"a": {"plain"}, "m": {"mid"}, "zz": {text}}
 	case "numlabelkey":
 		p.Sample[0].NumLabel[text] = []int64{7}
 		p.Sample[0].NumUnit[text] = []string{"bytes"}
